@@ -118,20 +118,29 @@ def r1(ctx: Ctx) -> None:
 def r2(ctx: Ctx) -> None:
     for q in ("Market._update_time", "Market._set_time"):
         set_time_forwarding(ctx, q)
-    # the reaper returns exactly the records it built
+    # the reaper builds one record per expired order (origin-traced, any loop shape) ...
+    from .reaper import check as reaper_check
+
+    reaper_check(ctx, aspects=("log",))
+    # ... and returns exactly the records it built
+    from ..kit import seq_value
+
     f = ctx.func("OrderBook._check_expired_orders")
     for p in ctx.paths(f.qualname):
-        if p.exit[0] != "return" or not any(e.kind == "call" and e.site.how == "ctor" and e.name == "ExpirationLog" for e in p.walk_events(True)):
+        made = [e for e in p.walk_events(True) if e.kind == "call" and e.site.how == "ctor" and e.name == "ExpirationLog"]
+        if p.exit[0] != "return" or not made:
             continue
         ret = p.exit[1]
-        ok = False
-        for l in loops(p):
-            for bp in l.paths:
-                made = [e for e in calls(bp) if e.site.how == "ctor" and e.name == "ExpirationLog"]
-                app = [e for e in calls(bp) if e.name == "append" and e.recv == ret and made and e.args and e.args[0] == made[0].term]
-                if len(made) == 1 and len(app) == 1:
-                    ok = True
-        ctx.check(ok, f, f.node, "each expiry record is appended once to the returned list", "logs.append(ExpirationLog(...)); return logs", short(ret))
+        put = []
+        for e in p.walk_events(True):
+            if e.kind == "call" and e.recv == ret and e.name in ("append", "extend") and e.args:
+                if any(strip_ver(m.term) in [strip_ver(x) for x in subterms(e.args[0])] for m in made if m.term is not None):
+                    put.append(e)
+        direct = ret is not None and any(strip_ver(m.term) in [strip_ver(x) for x in subterms(ret)] for m in made if m.term is not None)
+        if put or direct:
+            ctx.check(len(put) <= len(made), f, f.node, "each expiry record is put once into the returned list", "logs.append(ExpirationLog(...)) / logs.extend(...); return logs", f"{len(put)} insertion(s) for {len(made)} construction site(s)")
+        else:
+            ctx.unrec(f, f.node, "each expiry record is put once into the returned list", "how the returned list receives the records is not modelled", short(ret))
 
 
 def _obj_term(src: str, holder: Path, top: Path) -> Term:
@@ -192,13 +201,20 @@ def r3(ctx: Ctx) -> None:
                         continue
                     seen = True
                     src = obj
+                    objt = None
                     if src is None:
-                        # expiry: the loop element
-                        for l in all_loops_:
-                            if holder in l.paths:
-                                src = l.target[0]
+                        # expiry: the object the record takes its order_id from (loop element or comprehension variable)
+                        oid = strip_ver(dict(e.kwargs).get("order_id") or NONE)
+                        if oid[0] == "attr" and oid[2] == "order_id":
+                            objt = oid[1]
+                            src = short(objt)
+                        else:
+                            for l in all_loops_:
+                                if holder in l.paths:
+                                    src = l.target[0]
                     bad = []
-                    objt = _obj_term(src, holder, p)
+                    if objt is None:
+                        objt = _obj_term(src, holder, p)
                     for field, attr in fmap.items():
                         v = kw(e, field)
                         if v is None:
